@@ -233,3 +233,216 @@ Contract(
     note="may raise AssertionError (bookkeeping asserts), ValueError (max() of an empty parent list for a source task that is not ready) and AttributeError (None pool / strategy); those paths are not constrained",
     props=P,
 )
+
+
+# =================================================================================================
+# __handle_task_finished : C08 counters, C03 completion bookkeeping, C02 release events, C06 graph-finished
+# =================================================================================================
+TL2 = T.Tup(TaskList, TaskList)
+
+Contract(
+    "workers.workers.WorkerPool.remove_task",
+    params={"self": S_.WorkerPool.ty, "current_time": ETy, "task": S_.TASKR},
+    trusted=True,
+    may_raise=("ValueError",),
+    modifies=lambda c: {},
+    ensures=lambda c: z3.BoolVal(True),
+    note="WorkerPool.remove_task as seen from the finish handler (ledger effect is the subject of C04/C01; no Task / Event / queue / counter field is touched)",
+    props=("C08", "C03", "C02", "C06"),
+)
+
+TGC = z3.Function("taskgraph_is_complete", z3.ArraySort(z3.IntSort(), z3.IntSort()), z3.IntSort(), z3.BoolSort())
+TGD = z3.Function("taskgraph_deadline", z3.IntSort(), T.sort(ETy))
+
+Contract(
+    "workload.tasks.TaskGraph.is_complete",
+    params={"self": TGR},
+    ret=T.BOOL,
+    trusted=True,
+    ensures=lambda c: c.res == TGC(c.pre.fld_arr(TASK, "_state")[2], c.arg("self")),
+    note="TaskGraph.is_complete: a pure function of the task states (its meaning -- all sinks COMPLETED -- is decided by the bounded taskgraph stand-in)",
+    props=("C08", "C06"),
+)
+Contract(
+    "workload.tasks.TaskGraph.deadline",
+    params={"self": TGR},
+    ret=ETy,
+    trusted=True,
+    ensures=lambda c: c.res == TGD(c.arg("self")),
+    note="TaskGraph.deadline: a pure function of the graph (max deadline over sinks)",
+    props=("C08",),
+)
+Contract("workload.tasks.TaskGraph.name", params={"self": TGR}, ret=T.STR, trusted=True, ensures=lambda c: z3.BoolVal(True), note="TaskGraph.name (only logged)", props=("C08",))
+
+
+def _notify_ens(c):
+    r = c.res
+    rel, can = T.tup_get(TL2, r, 0), T.tup_get(TL2, r, 1)
+    x = z3.Int(H.fresh_name("nt_x"))
+    return z3.And(
+        rel >= c.alloc0,
+        can >= c.alloc0,
+        rel != can,
+        # cancelled tasks carry their cancellation time (Task.cancel's contract)
+        z3.ForAll(
+            [x],
+            z3.Implies(c.post.l_mem(TaskList, can, x), z3.And(x > 0, x < c.alloc0, c.post.rd(x, TASK, "_cancellation_time")[1] == T.opt_some(OptET, c.arg("finish_time")))),
+            patterns=[c.post.l_mem(TaskList, can, x)],
+        ),
+        z3.ForAll([x], z3.Implies(c.post.l_mem(TaskList, rel, x), z3.And(x > 0, x < c.alloc0)), patterns=[c.post.l_mem(TaskList, rel, x)]),
+    )
+
+
+Contract(
+    "workload.workload.Workload.notify_task_completion",
+    params={"self": T.Ref(WORKLOAD), "task": S_.TASKR, "finish_time": ETy},
+    ret=TL2,
+    trusted=True,
+    allocates=True,
+    may_raise=("ValueError", "RuntimeError"),
+    modifies=lambda c: {c.pre.fld_arr(TASK, f)[0]: ANY for f in ("_state", "_cancellation_time", "_probability", "_remaining_time")},
+    ensures=_notify_ens,
+    note="Workload.notify_task_completion: returns (released, cancelled) task lists (which children: decided by the bounded taskgraph stand-in)",
+    props=("C08", "C02", "C06"),
+)
+Contract(
+    "workload.workload.Workload.notify_task_graph_completion",
+    params={"self": T.Ref(WORKLOAD), "task_graph": TGR, "finish_time": ETy},
+    ret=TaskList,
+    trusted=True,
+    allocates=True,
+    may_raise=("ValueError", "AttributeError"),
+    modifies=lambda c: {},
+    ensures=lambda c: z3.And(
+        c.res >= c.alloc0,
+        z3.ForAll([z3.Int("ngc_x")], z3.Implies(c.post.l_mem(TaskList, c.res, z3.Int("ngc_x")), z3.Int("ngc_x") > 0), patterns=[c.post.l_mem(TaskList, c.res, z3.Int("ngc_x"))]),
+    ),
+    note="Workload.notify_task_graph_completion: tasks of a closed-loop follow-up graph (bounded: loaders / worlds)",
+    props=("C08", "C02"),
+)
+
+
+def _hf_names(c):
+    s, ev = c.arg("self"), c.arg("event")
+    task = ev_task(c.pre, ev)
+    return s, ev, task
+
+
+def _cnt(h, s, f):
+    return h.rd(s, SIM, f)[1]
+
+
+def _hf_requires(c):
+    s, ev, task = _hf_names(c)
+    return {
+        "heap_ok": is_heap(c.pre, sim_queue(c.pre, s)),
+        "task_event": task != 0,
+        "task_wf": wf_task(c.pre, task),
+        "finish_time_known": some(c.pre.rd(task, TASK, "_last_step_time")[1]),
+    }
+
+
+def _hf_mod(c):
+    s, ev, task = _hf_names(c)
+    out = lst_mod(c, sim_queue(c.pre, s))
+    for f in ("_state", "_cancellation_time", "_probability", "_remaining_time", "_completion_time", "_worker_pool_id"):
+        out[c.pre.fld_arr(TASK, f)[0]] = ANY
+    for f in ("_finished_tasks", "_finished_task_graphs", "_missed_task_deadlines", "_missed_task_graph_deadlines"):
+        out[c.pre.fld_arr(SIM, f)[0]] = [s]
+    return out
+
+
+def _hf_ens(c):
+    s, ev, task = _hf_names(c)
+    lst = sim_queue(c.pre, s)
+    now = us(ev_time(c.pre, ev))
+    e = z3.Int(H.fresh_name("hf_e"))
+    new_event = lambda y: z3.And(mem(c.post, lst, y), z3.Not(mem(c.pre, lst, y)))
+    late = now > us(c.pre.rd(task, TASK, "_deadline")[1])
+    return {
+        # C08: the counters move exactly with what happened
+        "count.finished": _cnt(c.post, s, "_finished_tasks") == _cnt(c.pre, s, "_finished_tasks") + 1,
+        "count.missed_iff_late": _cnt(c.post, s, "_missed_task_deadlines") == _cnt(c.pre, s, "_missed_task_deadlines") + z3.If(late, 1, 0),
+        "count.graph_finished_at_most_one": z3.And(
+            _cnt(c.post, s, "_finished_task_graphs") >= _cnt(c.pre, s, "_finished_task_graphs"),
+            _cnt(c.post, s, "_finished_task_graphs") <= _cnt(c.pre, s, "_finished_task_graphs") + 1,
+        ),
+        "count.graph_missed_only_if_graph_finished": z3.Implies(
+            _cnt(c.post, s, "_missed_task_graph_deadlines") != _cnt(c.pre, s, "_missed_task_graph_deadlines"),
+            z3.And(_cnt(c.post, s, "_finished_task_graphs") == _cnt(c.pre, s, "_finished_task_graphs") + 1, _cnt(c.post, s, "_missed_task_graph_deadlines") == _cnt(c.pre, s, "_missed_task_graph_deadlines") + 1),
+        ),
+        # C03: completion is stamped with the time the task's last step reached
+        "finish.completion_time": c.post.rd(task, TASK, "_completion_time")[1] == get(c.pre.rd(task, TASK, "_last_step_time")[1]),
+        # C02 / C16: every event this handler queues is a release or a cancellation, none of them in the past
+        "events.release_or_cancel_not_in_past": z3.ForAll(
+            [e],
+            z3.Implies(
+                new_event(e),
+                z3.And(z3.Or(ev_type(c.post, e) == et("TASK_RELEASE"), ev_type(c.post, e) == et("TASK_CANCEL")), ev_task(c.post, e) != 0, z3.Implies(ev_type(c.post, e) == et("TASK_RELEASE"), us(ev_time(c.post, e)) >= now)),
+            ),
+            patterns=[mem(c.post, lst, e)],
+        ),
+        "queue.heap_ok": is_heap(c.post, lst),
+        "queue.keeps_old_events": z3.ForAll([e], z3.Implies(mem(c.pre, lst, e), mem(c.post, lst, e)), patterns=[mem(c.pre, lst, e)]),
+    }
+
+
+def _hf_loop_inv(kind):
+    def inv(c, L):
+        s, ev, task = _hf_names(c)
+        lst = sim_queue(c.pre, s)
+        h = c.post
+        e = z3.Int(H.fresh_name("fl_e"))
+        now = us(ev_time(c.pre, ev))
+        cur_ev = L.var("event")
+        new_event = lambda y: z3.And(mem(h, lst, y), z3.Not(mem(c.pre, lst, y)))
+        return {
+            "heap_ok": is_heap(h, lst),
+            "old_kept": z3.ForAll([e], z3.Implies(mem(c.pre, lst, e), mem(h, lst, e)), patterns=[mem(c.pre, lst, e)]),
+            "members_allocated": z3.ForAll([e], z3.Implies(mem(h, lst, e), z3.And(e > 0, e < c.run.cur_alloc())), patterns=[mem(h, lst, e)]),
+            "new_events_ok": z3.ForAll(
+                [e],
+                z3.Implies(
+                    new_event(e),
+                    z3.And(z3.Or(ev_type(h, e) == et("TASK_RELEASE"), ev_type(h, e) == et("TASK_CANCEL")), ev_task(h, e) != 0, z3.Implies(ev_type(h, e) == et("TASK_RELEASE"), us(ev_time(h, e)) >= now)),
+                ),
+                patterns=[mem(h, lst, e)],
+            ),
+            # `event` is re-bound inside the loops: whatever it currently names is not earlier than the finish time
+            "event_var_not_earlier": z3.And(cur_ev != 0, cur_ev < c.run.cur_alloc(), us(ev_time(h, cur_ev)) >= now),
+            "counters_frozen": z3.And(*[_cnt(h, s, f) == _cnt(L.head, s, f) for f in ("_finished_tasks", "_finished_task_graphs", "_missed_task_deadlines", "_missed_task_graph_deadlines")]),
+            "completion_frozen": h.rd(task, TASK, "_completion_time")[1] == L.head.rd(task, TASK, "_completion_time")[1],
+        }
+
+    return inv
+
+
+def _hf_loop_mod(c):
+    s, ev, task = _hf_names(c)
+    out = lst_mod(c, sim_queue(c.pre, s))
+    for f in ("_event_type", "_time", "_task", "_task_graph", "_placement"):
+        out[c.pre.fld_arr(EVENT, f)[0]] = []
+    return out
+
+
+def _hf_loop_lemmas(c, L, phase):
+    s = c.arg("self")
+    if phase == "start":
+        return [Fact("list.index_mem", c.post.l_index_mem(EL, sim_queue(c.pre, s)))]
+    return []
+
+
+Contract(
+    "simulator.Simulator.__handle_task_finished",
+    params={"self": Simulator.ty, "event": S_.Event.ty},
+    requires=_hf_requires,
+    may_raise=("ValueError", "RuntimeError", "AttributeError"),
+    raise_unchanged=False,
+    modifies=_hf_mod,
+    loops={0: Loop(inv=_hf_loop_inv("cancel"), modifies=_hf_loop_mod, lemmas=_hf_loop_lemmas), 1: Loop(inv=_hf_loop_inv("release"), modifies=_hf_loop_mod, lemmas=_hf_loop_lemmas)},
+    ensures=_hf_ens,
+    entry_facts=lambda c: [closed_queue(c)],
+    allocates=True,
+    note="may raise ValueError / RuntimeError / AttributeError from the callees (unknown pool, notify on inconsistent graph); those paths are not constrained",
+    props=("C08", "C03", "C02", "C06"),
+)
